@@ -24,7 +24,7 @@ require (
 	github.com/emirpasic/gods v1.18.1 // indirect
 	github.com/felixge/httpsnoop v1.0.4 // indirect
 	github.com/francoispqt/gojay v1.2.13 // indirect
-	github.com/fsnotify/fsnotify v1.9.0 // indirect
+	github.com/fsnotify/fsnotify v1.9.0
 	github.com/gammazero/deque v1.2.1 // indirect
 	github.com/go-faker/faker/v4 v4.9.0
 	github.com/go-gl/mathgl v1.1.0
